@@ -90,6 +90,58 @@ theorem v6_unsound_124 :
 example : expand6 (0x0001000200030004000500060007 * 2 ^ 16 + 0x10) 124
     = ["1:2:3:4:5:6:7:1*".toList] := by decide +kernel
 
+/-! ## Size and boundary cases of the expansion (both families) -/
+
+/-- The number of IPv4 patterns is `2 ^ ((8 - p % 8) % 8)`: one when the prefix ends on an octet
+boundary, never more than 128, never none. -/
+theorem v4_count (base p : Nat) :
+    (expand4 base p).length = 2 ^ ((8 - p % 8) % 8) ∧ 1 ≤ (expand4 base p).length
+      ∧ (expand4 base p).length ≤ 128 := by
+  have h := length_expand4 base p
+  have hd : (8 - p % 8) % 8 ≤ 7 := by omega
+  have h1 : 2 ^ ((8 - p % 8) % 8) ≤ 2 ^ 7 := Nat.pow_le_pow_right (by decide) hd
+  have h2 : 0 < 2 ^ ((8 - p % 8) % 8) := Nat.pow_pos (by decide)
+  omega
+
+example : (expand4 (10 * 2 ^ 24) 9).length = 128 := (v4_count _ _).1
+
+/-- A host network (`/32`) expands to exactly the address itself, without wildcard. -/
+theorem v4_host (base : Nat) : expand4 base 32 = [render4 base] := by
+  simp [expand4]
+
+/-- `/0` expands to the bare wildcard. -/
+theorem v4_any (base : Nat) : expand4 base 0 = [['*']] := by
+  simp [expand4]
+
+/-- The number of IPv6 patterns is `2 ^ ((4 - p % 4) % 4)`, between 1 and 8. -/
+theorem v6_count (base p : Nat) :
+    (expand6 base p).length = 2 ^ ((4 - p % 4) % 4) ∧ 1 ≤ (expand6 base p).length
+      ∧ (expand6 base p).length ≤ 8 := by
+  have h : (expand6 base p).length = 2 ^ ((4 - p % 4) % 4) := by simp [expand6]
+  have hd : (4 - p % 4) % 4 ≤ 3 := by omega
+  have h1 : 2 ^ ((4 - p % 4) % 4) ≤ 2 ^ 3 := Nat.pow_le_pow_right (by decide) hd
+  have h2 : 0 < 2 ^ ((4 - p % 4) % 4) := Nat.pow_pos (by decide)
+  omega
+
+example : (expand6 (0x20010db8 * 2 ^ 96) 117).length = 8 := (v6_count _ _).1
+
+theorem firstDiff_self (s : Str) (i : Nat) : firstDiff s s i = none := by
+  induction s generalizing i with
+  | nil => rfl
+  | cons a s ih => simp [firstDiff, ih]
+
+/-- An IPv6 host network (`/128`) expands to exactly the text of the address — whatever the zero
+compression does, since first and last address coincide — and that pattern matches the address. -/
+theorem v6_host (base : Nat) :
+    expand6 base 128 = [render6 base] ∧ matches6 base 128 base = true := by
+  have h : expand6 base 128 = [render6 base] := by
+    simp [expand6, firstDiff_self]
+  refine ⟨h, ?_⟩
+  simp [matches6, h, glob_self]
+
+example : expand6 (0x20010db8 * 2 ^ 96 + 1) 128 = ["2001:db8::1".toList] := by
+  rw [(v6_host _).1]; decide +kernel
+
 /-! ## IPv6: a sufficient condition for completeness -/
 
 /-- If the prefix length is a multiple of 16 (16 … 128) and every fixed hextet of the network
